@@ -12,6 +12,8 @@ Global Hint Rewrite lenN_app lenN_firstnN lenN_skipnN lenN_zerosN lenN_resizeN l
 
 Ltac u32_facts :=
   repeat match goal with
+  | |- context [u16 ?x] => lazymatch goal with H : u16 x < 65536 |- _ => fail | _ => pose proof (u16_lt x) end
+  | H : context [u16 ?x] |- _ => lazymatch goal with H' : u16 x < 65536 |- _ => fail | _ => pose proof (u16_lt x) end
   | |- context [u32 ?x] => lazymatch goal with H : u32 x <= x |- _ => fail | _ => pose proof (u32_le x); pose proof (u32_lt x); pose proof (u32_small x) end
   | H : context [u32 ?x] |- _ => lazymatch goal with H' : u32 x <= x |- _ => fail | _ => pose proof (u32_le x); pose proof (u32_lt x); pose proof (u32_small x) end
   end.
@@ -29,88 +31,27 @@ Definition safe {X A} (m : M X A) (s : st X) : Prop := snd (m s) <> Fault.
 (** the 16 KiB invariant of the legacy state *)
 Definition state_ok {X} (s : st (host X)) : Prop := lenN (h_state (hs s)) <= 16384.
 
+Ltac unfold_v0 :=
+  unfold accept, simple_transfer, send, combine_and, combine_or, get_parameter_size, get_parameter_section,
+    get_policy_section, log_event, load_state, write_state, resize_state, state_size, get_init_origin,
+    get_receive_invoker, get_receive_self_address, get_receive_self_balance, get_receive_sender,
+    get_receive_owner, get_slot_time, put_address, read_section, out_send, out_combine, push_action,
+    logs_push, st_write_state, st_load_state, st_resize_state.
+
+Ltac split_args args :=
+  destruct args as [|?a [|?a [|?a [|?a [|?a [|?a [|?a [|?a args]]]]]]]].
+
 Section V0.
 Context {X : Type}.
 Notation S0 := (st (host X)).
 
-Lemma get_parameter_size_safe : forall s : S0, safe get_parameter_size s.
-Proof. intros. unfold safe, get_parameter_size. mstep. finish_safe. Qed.
-
-Lemma read_section_safe : forall param start length offset (s : S0),
-  safe (read_section param start length offset) s.
-Proof. intros. unfold safe, read_section. mstep; finish_safe. Qed.
-
-Lemma get_parameter_section_safe : forall start length offset (s : S0),
-  safe (get_parameter_section start length offset) s.
-Proof. intros. unfold safe, get_parameter_section, read_section. mstep; finish_safe. Qed.
-
-Lemma get_policy_section_safe : forall start length offset (s : S0),
-  safe (get_policy_section start length offset) s.
-Proof. intros. unfold safe, get_policy_section, read_section. mstep; finish_safe. Qed.
-
-Lemma log_event_safe : forall start length (s : S0), safe (log_event start length) s.
-Proof. intros. unfold safe, log_event, logs_push. mstep; finish_safe. Qed.
-
-Lemma load_state_safe : forall start length offset (s : S0), safe (load_state start length offset) s.
-Proof. intros. unfold safe, load_state, st_load_state. mstep; finish_safe. Qed.
-
-Lemma write_state_safe : forall start length offset (s : S0),
-  state_ok s -> safe (write_state start length offset) s.
-Proof. intros ? ? ? s Hinv. destruct s as [e0 m0 ev0 h0]. unfold state_ok in Hinv. cbn [hs] in Hinv. unfold safe, write_state, st_write_state. mstep; finish_safe. Qed.
-
-Lemma resize_state_safe : forall new_size (s : S0), safe (resize_state new_size) s.
-Proof. intros. unfold safe, resize_state, st_resize_state. mstep; finish_safe. Qed.
-
-Lemma state_size_safe : forall s : S0, safe state_size s.
-Proof. intros. unfold safe, state_size. mstep. finish_safe. Qed.
-
-Lemma get_slot_time_safe : forall s : S0, safe get_slot_time s.
-Proof. intros. unfold safe, get_slot_time. mstep. finish_safe. Qed.
-
-Lemma put_address_safe : forall addr start (s : S0), safe (put_address addr start) s.
-Proof. intros. unfold safe, put_address. mstep; finish_safe. Qed.
-
-Lemma get_receive_self_address_safe : forall start (s : S0), safe (get_receive_self_address start) s.
-Proof. intros. unfold safe, get_receive_self_address. mstep; finish_safe. Qed.
-
-Lemma get_receive_sender_safe : forall start (s : S0), safe (get_receive_sender start) s.
-Proof. intros. unfold safe, get_receive_sender. mstep; finish_safe. Qed.
-
-Lemma accept_safe : forall s : S0, safe accept s.
-Proof. intros. unfold safe, accept, push_action. mstep; finish_safe. Qed.
-
-Lemma simple_transfer_safe : forall a b (s : S0), safe (simple_transfer a b) s.
-Proof. intros. unfold safe, simple_transfer, push_action. mstep; finish_safe. Qed.
-
-Lemma send_safe : forall a b c d e f g (s : S0), safe (send a b c d e f g) s.
-Proof. intros. unfold safe, send, out_send, push_action. mstep; finish_safe. Qed.
-
-Lemma combine_and_safe : forall l r (s : S0), safe (combine_and l r) s.
-Proof. intros. unfold safe, combine_and, out_combine, push_action. mstep; finish_safe. Qed.
-Lemma combine_or_safe : forall l r (s : S0), safe (combine_or l r) s.
-Proof. intros. unfold safe, combine_or, out_combine, push_action. mstep; finish_safe. Qed.
-
-(** *** every v0 host call is total: it never reaches [Fault] *)
-Theorem call_v0_safe : forall f args (s : S0), state_ok s -> safe (call_v0 f args) s.
+(** *** every v0 host call is total: for well-typed stack values it never reaches [Fault]
+    (no out-of-bounds slice, no usize overflow) *)
+Theorem call_v0_safe : forall f args (s : S0), args_wf (sig0 f) args -> state_ok s -> safe (call_v0 f args) s.
 Proof.
-  intros f args s Hinv. unfold safe, call_v0.
-  change (snd ((h <- get_hs ;; (if h_init h && v0_receive_only f then trap
-            else if negb (h_init h) && match f with V0get_init_origin => true | _ => false end then trap
-            else call_v0_raw f args)) s) <> Fault).
-  cbv beta iota delta [bind get_hs].
-  destruct (h_init (hs s) && v0_receive_only f); [unfold trap; cbn [snd]; discriminate|].
-  destruct (negb (h_init (hs s)) && match f with V0get_init_origin => true | _ => false end); [unfold trap; cbn [snd]; discriminate|].
-  destruct f; cbn [call_v0_raw];
-    repeat (match goal with |- context [match ?l with [] => _ | _ :: _ => _ end] => is_var l; destruct l end; cbn [call_v0_raw]);
-    try (unfold trap; cbn [snd]; discriminate).
-  all: first
-    [ apply accept_safe | apply simple_transfer_safe | apply send_safe | apply combine_and_safe
-    | apply combine_or_safe | apply get_parameter_size_safe | apply get_parameter_section_safe
-    | apply get_policy_section_safe | apply log_event_safe | apply load_state_safe
-    | (apply write_state_safe; assumption) | apply resize_state_safe | apply state_size_safe
-    | apply get_receive_self_address_safe | apply get_receive_sender_safe | apply get_slot_time_safe
-    | (unfold get_init_origin, get_receive_invoker, get_receive_owner; mprims; apply put_address_safe)
-    | (unfold get_receive_self_balance; mstep; finish_safe) ].
+  intros f args s Hwf H. destruct s as [e0 m0 ev0 h0]. unfold state_ok in H. cbn [hs] in H.
+  unfold safe, call_v0.
+  destruct f; split_args args; cbn [call_v0_raw sig0 args_wf] in *; unfold_v0; mstep; finish_safe.
 Qed.
 
 End V0.
